@@ -22,7 +22,7 @@ Definition us_advance (u : upstream) (rest : list upstep) (mkchild ended : bool)
 
 (** one poll of the upstream with the task waker [t] *)
 Definition up_poll (try : bool) (u : upstream) (t : nat) (w : world) : upstream * upres * world :=
-  if us_ended u then (u, UPEnd, emit (EUpPoll UAAfterEnd) w)
+  if us_ended u then (u, UPEnd, emit EStuck (emit (EUpPoll UAAfterEnd) w))   (* never happens: the adapters are fused (AdaptersProofs) *)
   else
     match us_steps u with
     | [] => (u, UPPend, emit (EUpPoll UAPend) w)
